@@ -8,6 +8,7 @@ From SV Require Import model.Clean.
 From SV Require Import proofs.TrellisDDProofs.
 From SV Require Import proofs.CleanProofs.
 From SV Require Import proofs.CleanDirs.
+From SV Require Import proofs.CleanLinks.
 Import ListNotations.
 Open Scope N_scope.
 
@@ -20,18 +21,45 @@ Theorem C06_ever_output_invariant :
     forall r, In r (h_rows h) -> is_output_role (fr_state r) = true -> In (fr_path r) (h_ever h).
 Proof. exact ever_output_invariant. Qed.
 
-(* Builder.finalize (guard chain and cleanup calls regenerated from builder.py): every file removed
-   belongs to a file node of the graph whose path is in ever_output, which is not in a static state,
-   which was a regular file on disk, and which is volatile or carries exactly the recorded hash. *)
+(* Builder.finalize (guard chain and cleanup calls regenerated from builder.py): every path removed as a file
+   belongs to a file node of the graph whose path is in ever_output, which is not in a static state; what was
+   there was a regular file or a symbolic link (of which only the link goes: see C06_dir_removed_only_if_empty,
+   nothing else vanishes); and the node is volatile, or reading through the path (stat, following links the way
+   the kernel does) gave a regular file with exactly the recorded hash.  The branch in front of the hash
+   comparison is regenerated from the AST of remove_deletable_files (rdf_hash_checked, by kind of path), and so
+   is the shape of the loop (rdf_decide_first). *)
 Theorem C06_removed_only_owned :
   forall c g f ever,
     (forall n, In n (gnodes g) -> nkind n = KFILE -> is_output_role (nfstate n) = true -> In (nlabel n) ever) ->
     forall p, In p (s_files (finalize c (init_state g f))) ->
-      exists n h0, In n (gnodes g) /\ nkind n = KFILE /\ nlabel n = p /\
+      exists n, In n (gnodes g) /\ nkind n = KFILE /\ nlabel n = p /\
         In p ever /\ memN (nfstate n) static_states = false /\ is_output_role (nfstate n) = true /\
-        fs_get f p = Some (FFile h0) /\
-        (memN (nfstate n) volatile_states = true \/ nfhash n = Some h0 \/ false = true).
+        (lkind f p = KRegular \/ lkind f p = KSymlink) /\
+        (memN (nfstate n) volatile_states = true \/ (exists h0, stat f p = SFile h0 /\ nfhash n = Some h0) \/
+         false = true).
 Proof. exact removed_only_owned_finalize. Qed.
+
+(* The same split by what was at the path: a regular file went only if volatile or with exactly the recorded
+   hash; a symbolic link went only if volatile or if it led to a regular file (another entry q of the tree) with
+   exactly the recorded hash. *)
+Theorem C06_removed_by_kind :
+  forall c g f ever,
+    (forall n, In n (gnodes g) -> nkind n = KFILE -> is_output_role (nfstate n) = true -> In (nlabel n) ever) ->
+    forall p, In p (s_files (finalize c (init_state g f))) ->
+      exists n, In n (gnodes g) /\ nkind n = KFILE /\ nlabel n = p /\
+        ((exists h, fs_get f p = Some (FFile h) /\
+                    (memN (nfstate n) volatile_states = true \/ nfhash n = Some h)) \/
+         (exists t, fs_get f p = Some (FLink t) /\
+                    (memN (nfstate n) volatile_states = true \/
+                     exists h q, stat f p = SFile h /\ nfhash n = Some h /\ fs_get f q = Some (FFile h)))).
+Proof. exact removed_file_kinds. Qed.
+
+(* The regenerated branching itself: the recorded hash is compared whatever lstat reports for the queued path,
+   and for the path handed to `stepup clean`; `clean` treats a path as missing when stat (following links) fails. *)
+Theorem C06_hash_compared_for_every_kind :
+  (forall k, rdf_hash_checked k = true) /\ (forall k, clean_hash_checked k = true) /\
+  clean_missing_follows_links = true.
+Proof. exact (conj gen_rdf_hash_checked (conj gen_clean_hash_checked gen_clean_missing_follows)). Qed.
 
 (* The same for `stepup clean` (selection logic and state filter regenerated from clean.py), with
    the --unsafe exception; without --commit nothing is removed at all. *)
@@ -39,10 +67,11 @@ Theorem C06_removed_only_owned_clean :
   forall g a trs f ever,
     (forall n, In n (gnodes g) -> nkind n = KFILE -> is_output_role (nfstate n) = true -> In (nlabel n) ever) ->
     forall p, In p (k_files (clean_tool g a trs f)) ->
-      exists n h0, In n (gnodes g) /\ nkind n = KFILE /\ nlabel n = p /\
+      exists n, In n (gnodes g) /\ nkind n = KFILE /\ nlabel n = p /\
         In p ever /\ memN (nfstate n) static_states = false /\ is_output_role (nfstate n) = true /\
-        fs_get f p = Some (FFile h0) /\
-        (memN (nfstate n) volatile_states = true \/ nfhash n = Some h0 \/ negb (a_safe a) = true).
+        (lkind f p = KRegular \/ lkind f p = KSymlink) /\
+        (memN (nfstate n) volatile_states = true \/ (exists h0, stat f p = SFile h0 /\ nfhash n = Some h0) \/
+         negb (a_safe a) = true).
 Proof. exact removed_only_owned_clean. Qed.
 
 Theorem C06_clean_without_commit :
@@ -141,6 +170,34 @@ Example C06_example :
   s_files r = [v; a] /\ s_dirs r = [[100]] /\ s_fs r = [(b, FFile 99); (u, FFile 5)] /\
   finalize (mkCtx true 0 true) (init_state g f) = init_state g f /\
   finalize (mkCtx false 16 true) (init_state g f) = init_state g f.
+Proof. vm_compute. repeat split; reflexivity. Qed.
+
+(* Non-vacuity with symbolic links: a dropped step with five regular outputs (recorded hashes 1..5) that the user
+   replaced by: a link to a user file with other content (kept), a link to a user file with the recorded content
+   (the link goes, the user file stays), a dangling link (kept), a link to a directory (kept), a link to itself
+   (kept); and a volatile output replaced by a link to a user file (the link goes, the user file stays).  *)
+Example C06_example_links :
+  let root := (KROOT, []) in let s := (KSTEP, [115]) in
+  let o1 := [111; 49] in let o2 := [111; 50] in let o3 := [111; 51] in let o4 := [111; 52] in let o5 := [111; 53] in
+  let v := [118] in let u := [117] in let w := [119] in let d := [100] in let nowhere := [110] in
+  let out k h := mkNode (KFILE, k) (Some s) true FS_BUILT (Some h) false 0 0 in
+  let g := mkGraph [mkNode root (Some root) false 0 None false 0 0;
+                    mkNode s None true 0 None true 32 23;
+                    out o1 1; out o2 2; out o3 3; out o4 4; out o5 5;
+                    mkNode (KFILE, v) (Some s) true FS_VOLATILE None false 0 0]
+                   [(s, (KFILE, o1)); (s, (KFILE, o2)); (s, (KFILE, o3)); (s, (KFILE, o4)); (s, (KFILE, o5));
+                    (s, (KFILE, v))] in
+  let f := [(d, FDir); (u, FFile 77); (w, FFile 2);
+            (o1, FLink u); (o2, FLink w); (o3, FLink nowhere); (o4, FLink d); (o5, FLink o5); (v, FLink u)] in
+  let kept := [(d, FDir); (u, FFile 77); (w, FFile 2);
+               (o1, FLink u); (o3, FLink nowhere); (o4, FLink d); (o5, FLink o5)] in
+  let r := finalize (mkCtx false 0 true) (init_state g f) in
+  s_files r = [v; o2] /\ s_dirs r = [] /\ s_fs r = kept /\
+  (* the clean tool stops at the link to a directory (HashFailedError escapes) ... *)
+  k_files (clean_tool g (mkArgs true true true) [[46]] f) = [v] /\
+  k_crash (clean_tool g (mkArgs true true true) [[46]] f) = true /\
+  (* ... and without that link decides like finalize *)
+  k_files (clean_tool g (mkArgs true true true) [[46]] (fs_del f o4)) = [v; o2].
 Proof. vm_compute. repeat split; reflexivity. Qed.
 
 (* Non-vacuity of the positive D12 statement: on the witness of the finding (tree data/ attached, its
